@@ -213,8 +213,19 @@ func runC05(p *engine.Prog, r *engine.Report) {
 				}
 				// requested state: the *target.Target whose Hash keys the entry
 				reqOK := false
+				var keyV ssa.Value
 				if lk, ok := e.(*ssa.Lookup); ok {
-					if req, ok := loadOfField(lk.Index, fTgtHash); ok {
+					keyV = lk.Index
+				} else if e.Referrers() != nil {
+					// the entry was chosen into a variable first; it is the entry of the hash it is stored under
+					for _, rr := range *e.Referrers() {
+						if mu, ok := rr.(*ssa.MapUpdate); ok && mu.Value == e {
+							keyV = mu.Key
+						}
+					}
+				}
+				if keyV != nil {
+					if req, ok := loadOfField(keyV, fTgtHash); ok {
 						need := engine.EqAtom(fi.FieldPath(fi.T(req).S, st, fTgtState), `"in_transfer"`)
 						if ok, _ := fi.Implies(st.Block(), need); ok {
 							reqOK = true
